@@ -4,6 +4,7 @@
 //!   wsim replay <file>                           re-execute a replay file
 //!   wsim plan <ID> <seed>                        print the plan a seed generates
 mod child;
+mod conc;
 mod crash;
 mod gen;
 mod oracle;
@@ -132,12 +133,17 @@ fn flatten_len(plan: &Plan) -> usize {
     plan.incarnations.iter().map(|i| i.phases.iter().map(|p| p.threads.iter().map(|t| t.len()).sum::<usize>()).sum::<usize>()).sum()
 }
 
+/// Operations the oracles rely on structurally; the minimiser never removes them.
+fn structural(k: &OpKind) -> bool {
+    matches!(k, OpKind::Open { .. } | OpKind::Close { .. } | OpKind::RemoveFile { .. } | OpKind::Drain { .. })
+}
+
 fn remove_ops(plan: &Plan, drop: &BTreeSet<u32>) -> Plan {
     let mut p = plan.clone();
     for inc in p.incarnations.iter_mut() {
         for ph in inc.phases.iter_mut() {
             for th in ph.threads.iter_mut() {
-                th.retain(|o| !drop.contains(&o.id) || matches!(o.kind, OpKind::Open { .. } | OpKind::Close { .. }));
+                th.retain(|o| !drop.contains(&o.id) || structural(&o.kind));
             }
         }
     }
@@ -167,7 +173,7 @@ fn minimise(sc: &dyn Scenario, env: &Env, plan: &Plan, rule: &str, budget: usize
         let ids: Vec<u32> = best
             .incarnations
             .iter()
-            .flat_map(|i| i.phases.iter().flat_map(|p| p.threads.iter().flat_map(|t| t.iter().filter(|o| !matches!(o.kind, OpKind::Open { .. } | OpKind::Close { .. })).map(|o| o.id))))
+            .flat_map(|i| i.phases.iter().flat_map(|p| p.threads.iter().flat_map(|t| t.iter().filter(|o| !structural(&o.kind)).map(|o| o.id))))
             .collect();
         let mut progress = false;
         let mut start = 0;
